@@ -774,7 +774,7 @@ theorem refreshTypes_ok (now : Nat) : ∀ (l : List BList) (c : Cache),
 
 theorem ok_refreshActive (P : Cache → Prop) (hL : LowClosed P) (s : State) (now : Nat) (hP : P s.cache) :
     PhaseOk P now (refreshActive s now) := by
-  have h := refreshTypes_ok now (s.queriers.map (·.1)) s.cache
+  have h := refreshTypes_ok now (activeTypes s) s.cache
   exact ⟨hL _ _ hP h.1, h.2.ok⟩
 
 theorem refreshResolversGo_ok (now : Nat) : ∀ (l : List BList) (c : Cache),
